@@ -206,6 +206,7 @@ pub struct VerifiableEncryptionDecryptionProof {
     /// The message decomposed into schnorr byte proofs
     pub byte_proofs: [ByteProof; 32],
     /// Byte range proofs
+    #[serde(with = "crate::presentation::range::bulletproof_serde")]
     pub range_proof: RangeProof,
     /// DLog proof
     pub c1: G1Projective,
